@@ -255,6 +255,16 @@ def beam_section(b=0.2, h=0.3):
     return _SECTION[key]
 
 
+def beam_section_circle(d=0.3):
+    from EasyFEA import Mesher
+    from EasyFEA.Geoms import Circle, Point
+
+    key = ("circle", d)
+    if key not in _SECTION:
+        _SECTION[key] = Mesher().Mesh_2D(Circle(Point(), d, d / 6))
+    return _SECTION[key]
+
+
 def beam_simu(dim, elemType, p1, p2, ne=2, timoshenko=False, E=210.0, v=0.3, yAxis=None, section=None, nonuniform=0.13):
     """A real Beam simulation on one straight member from p1 to p2 meshed with `ne` elements (+ one extra node at
     `nonuniform` x L so that the element lengths differ; None for a uniform mesh)."""
